@@ -37,8 +37,13 @@ Inductive ptr :=
 | PLocal (ty : string)                       (* the local variable of struct type ty (named by its type,
                                                 so that renaming or reordering locals changes nothing) *)
 | PRes (k : nat)                             (* the struct returned by value by the k-th such call *)
-| PPost (b : ptr) (f : string).              (* the value of b->f after the last opaque call that may
+| PPost (b : ptr) (f : string)              (* the value of b->f after the last opaque call that may
                                                 have changed it *)
+| PCarry (j : nat).                          (* in the plan of a loop round: the j-th pointer local that is
+                                                carried into the loop unchanged but whose value depends on the
+                                                path to the loop head (an allocation result: the copy under
+                                                construction); the plan that arrives at the head says what it is
+                                                (effect Carry j v) *)
 
 (* what the translator writes for the result of the k-th allocator call: NULL when the request was refused *)
 Definition pnew (ok : bool) (k : nat) : ptr := if ok then PNew k else PNull.
@@ -47,8 +52,9 @@ Inductive arg :=
 | AP (p : ptr) | AZ (z : Z)
 | APO (p : ptr) (off : Z)                    (* byte pointer p + off *)
 | AOpaque (i : nat)                          (* the i-th parameter, of a type that is not modelled (float) *)
-| AVal (f : string) (p : ptr).               (* the value the payload getter f returns for the item p
+| AVal (f : string) (p : ptr)               (* the value the payload getter f returns for the item p
                                                 (cbor_float_get_float4 ...): not modelled *)
+| AStruct (fields : list arg).               (* a struct passed by value: its members in order *)
 
 (* ---------- ordered part: what reaches the allocator, and calls of other listed functions ---------- *)
 Inductive req :=
@@ -73,9 +79,10 @@ Inductive eff :=
 | Copy (dst src : ptr) (n : Z)                   (* memcpy(dst, src, n) *)
 | CopyAt (dst : ptr) (off : Z) (src : ptr) (n : Z)   (* memcpy(dst + off, src, n) *)
 | SetPtr (o : ptr) (f : string) (v : ptr)        (* final value of the pointer field o->f *)
-| SetInt (o : ptr) (f : string) (v : Z).         (* final value of an integer field of a block that
+| SetInt (o : ptr) (f : string) (v : Z)         (* final value of an integer field of a block that
                                                     has no entry value (fresh), or that the plan does
                                                     not list among p_fields *)
+| Carry (j : nat) (v : ptr).                      (* at the loop head this plan arrives at, PCarry j is v *)
 
 (* RLoop k: control arrives at the head of the k-th loop of the function (source order); a function
    with loops is rendered as one plan from its entry and one plan from the head of each loop *)
